@@ -12,10 +12,10 @@ import (
 )
 
 type (
-	FileInfo = fs.FileInfo
-	FileMode = fs.FileMode
-	DirEntry = fs.DirEntry
-	Signal   = ros.Signal
+	FileInfo  = fs.FileInfo
+	FileMode  = fs.FileMode
+	DirEntry  = fs.DirEntry
+	Signal    = ros.Signal
 	PathError = fs.PathError
 )
 
@@ -361,4 +361,132 @@ func Exit(code int) {
 		w.K.Exit(code) // never returns
 	}
 	ros.Exit(code)
+}
+
+// ---- further surface, so that a realistic change to Zn still compiles against the shim
+
+func (f *File) Seek(offset int64, whence int) (int64, error) {
+	if f.real != nil {
+		return f.real.Seek(offset, whence)
+	}
+	return 0, &fs.PathError{Op: "seek", Path: f.name, Err: fs.ErrInvalid}
+}
+
+func (f *File) Chmod(mode FileMode) error { return nil }
+func (f *File) Truncate(size int64) error {
+	if f.real != nil {
+		return f.real.Truncate(size)
+	}
+	return &fs.PathError{Op: "truncate", Path: f.name, Err: fs.ErrInvalid}
+}
+func (f *File) Readdirnames(n int) ([]string, error) {
+	es, err := f.ReadDir(n)
+	var out []string
+	for _, e := range es {
+		out = append(out, e.Name())
+	}
+	return out, err
+}
+
+func Chmod(name string, mode FileMode) error {
+	if disk() != nil {
+		return nil
+	}
+	return ros.Chmod(name, mode)
+}
+
+func RemoveAll(name string) error {
+	if d := disk(); d != nil {
+		for _, p := range d.Paths() {
+			if p == name || len(p) > len(name) && p[:len(name)+1] == name+"/" {
+				d.Remove(p)
+			}
+		}
+		return nil
+	}
+	return ros.RemoveAll(name)
+}
+
+func Executable() (string, error) {
+	if w := zsim.W; w != nil && w.K != nil && len(Args) > 0 {
+		return Args[0], nil
+	}
+	return ros.Executable()
+}
+
+func Getuid() int  { return ros.Getuid() }
+func Getgid() int  { return ros.Getgid() }
+func Geteuid() int { return ros.Geteuid() }
+
+func LookupEnv(key string) (string, bool) {
+	if w := zsim.W; w != nil && w.K != nil {
+		for _, kv := range w.K.Environ() {
+			if len(kv) > len(key) && kv[:len(key)+1] == key+"=" {
+				return kv[len(key)+1:], true
+			}
+		}
+		return "", false
+	}
+	return ros.LookupEnv(key)
+}
+
+func Setenv(key, value string) error {
+	if w := zsim.W; w != nil && w.K != nil {
+		w.K.Setenv(key, value)
+		return nil
+	}
+	return ros.Setenv(key, value)
+}
+
+func UserHomeDir() (string, error) {
+	if zsim.W != nil {
+		return "/home/sim", nil
+	}
+	return ros.UserHomeDir()
+}
+
+func IsTimeout(err error) bool { return ros.IsTimeout(err) }
+
+func SameFile(a, b FileInfo) bool { return ros.SameFile(a, b) }
+
+const DevNull = ros.DevNull
+const PathSeparator = ros.PathSeparator
+
+var ErrInvalid = fs.ErrInvalid
+var ErrDeadlineExceeded = ros.ErrDeadlineExceeded
+
+// FindProcess / Process: only what a supervisor typically needs.
+type Process struct {
+	Pid int
+}
+
+func FindProcess(pid int) (*Process, error) { return &Process{Pid: pid}, nil }
+
+func (p *Process) Kill() error {
+	if w := zsim.W; w != nil && w.K != nil {
+		if zsim.Dying() {
+			return nil
+		}
+		return w.K.Kill(p.Pid)
+	}
+	rp, err := ros.FindProcess(p.Pid)
+	if err != nil {
+		return err
+	}
+	return rp.Kill()
+}
+
+func (p *Process) Signal(sig Signal) error {
+	if w := zsim.W; w != nil && w.K != nil {
+		if sig == Kill {
+			return p.Kill()
+		}
+		w.K.Signal(p.Pid, sig.String())
+		return nil
+	}
+	rp, err := ros.FindProcess(p.Pid)
+	if err != nil {
+		return err
+	}
+	return rp.Signal(sig)
 }
